@@ -18,9 +18,18 @@ import (
 type c17Case struct {
 	Query   string `json:"query"`
 	Padding int    `json:"padding"`
+	// DefPad: when set, kvql.DefaultErrorPadding is set to it before the statement
+	// runs and SetPadding is not called: errors render with the default in force
+	// when they were created
+	DefPad *int `json:"default_padding,omitempty"`
 }
 
-func (c *c17Case) text() string { return fmt.Sprintf("%q padding=%d", c.Query, c.Padding) }
+func (c *c17Case) text() string {
+	if c.DefPad != nil {
+		return fmt.Sprintf("%q DefaultErrorPadding=%d", c.Query, *c.DefPad)
+	}
+	return fmt.Sprintf("%q padding=%d", c.Query, c.Padding)
+}
 
 type c17 struct{}
 
@@ -31,7 +40,7 @@ func (c17) Info() core.Info {
 		ID:    "C17",
 		Title: "Reported error positions lie inside the query and render with an aligned caret",
 		Level: "exploration",
-		Rule: "every single-token edit (delete, duplicate, replace by each of 26 alphabet tokens) at every token position of a corpus of valid statements of all kinds and of lengths 30/69/70/71/150 bytes (so that faults fall early and late, inside and outside the 70-character window), plus statements that fail at execution; each erroneous variant with leading white space {none, 1 and 3 blanks, a tab, a line feed + 2 blanks} x trailing white space {none, 2 blanks, a line feed, blank + tab} x padding {0,7,12}; the statement corpus also holds a statement with tabs between its tokens (line feeds inside a statement are not used: a caret line cannot stand under a character of a text that spans several lines). " +
+		Rule: "every single-token edit (delete, duplicate, replace by each of 26 alphabet tokens) at every token position of a corpus of valid statements of all kinds and of lengths 30/69/70/71/150 bytes (so that faults fall early and late, inside and outside the 70-character window), plus statements that fail at execution; each erroneous variant with leading white space {none, 1 and 3 blanks, a tab, a line feed + 2 blanks} x trailing white space {none, 2 blanks, a line feed, blank + tab} x padding {0,7,12} set per error, and DefaultErrorPadding set to {0,3,12} for the whole statement; the statement corpus also holds a statement with tabs between its tokens (line feeds inside a statement are not used: a caret line cannot stand under a character of a text that spans several lines). " +
 			"Oracle: Pos is -1 or 0 <= Pos < len(query); for errors from parsing / checking Pos is 0 or the start offset of a token (reference lexer of C16); after BindQuery the first line shows a stretch of the (trimmed) query that contains the offset and the caret of the second line stands, after the padding, under the character at that offset (at the end of the text for -1). Every error is bound and rendered twice (same text, same padding): both renderings must satisfy this and the position carried after binding must still be such an offset. Rendering must not panic. Non-trivial: an error with a position inside a query longer than the window or with leading blanks. Distinct: (query text, padding).",
 		Assumptions: []string{"errors that are not positional (no QueryBinder) are skipped", "the first line is printed after a prefix of `padding` characters, as in the README example"},
 	}
@@ -129,6 +138,24 @@ func (c17) RunUnit(t core.Tier, u int, r *core.Reporter) {
 					continue // (half of the tab / line-feed combinations)
 				}
 				q := lead + e + trail
+				if li <= 1 && ti == 0 {
+					// the library-wide default padding changed at run time (the README's way)
+					for _, dp := range []int{0, 3, 12} {
+						dp := dp
+						c := c17Case{Query: q, DefPad: &dp}
+						if r.Begin(func() *core.Failure {
+							return &core.Failure{Property: "C17", Leg: "error-position", Case: c.text(), Data: core.MustJSON(c)}
+						}) {
+							f, nontrivial, status, ev := c17Judge(&c)
+							r.Evals(ev)
+							if f != nil {
+								status = "violation:" + f.Sig
+								r.Fail(*f)
+							}
+							r.Case(c.text(), nontrivial, status)
+						}
+					}
+				}
 				for _, pad := range []int{0, 7, 12} {
 					if (li >= 3 || ti >= 2) && pad == 12 {
 						continue
@@ -171,6 +198,13 @@ func c17Judge(c *c17Case) (f *core.Failure, nontrivial bool, status string, eval
 		return &core.Failure{Property: "C17", Leg: leg, Sig: sig, Case: c.text(), Data: core.MustJSON(c), Expected: exp, Observed: obs}
 	}
 	q := c.Query
+	pad := c.Padding
+	if c.DefPad != nil {
+		old := kvql.DefaultErrorPadding
+		kvql.DefaultErrorPadding = *c.DefPad
+		defer func() { kvql.DefaultErrorPadding = old }()
+		pad = *c.DefPad
+	}
 	var errs []struct {
 		err   error
 		stage string
@@ -181,7 +215,7 @@ func c17Judge(c *c17Case) (f *core.Failure, nontrivial bool, status string, eval
 	evals++
 	switch {
 	case bpan != "":
-		return nil, false, "panic(C06)", evals
+		return mk("position-in-query", "panic", "an error value", "panic while building the plan: "+bpan), true, "", evals
 	case berr != nil:
 		errs = append(errs, struct {
 			err   error
@@ -237,7 +271,9 @@ func c17Judge(c *c17Case) (f *core.Failure, nontrivial bool, status string, eval
 		// query it was bound to, and the caret still stands under that character
 		for round := 1; round <= 2; round++ {
 			qb.BindQuery(q)
-			qb.SetPadding(c.Padding)
+			if c.DefPad == nil {
+				qb.SetPadding(c.Padding)
+			}
 			if p2, _, ok2 := positional(e.err); ok2 && p2 != pos {
 				if p2 != -1 && (p2 < 0 || p2 >= len(q)) {
 					return mk("position-in-query", "position-outside-query-after-binding", fmt.Sprintf("-1 or 0 <= Pos < %d", len(q)), fmt.Sprintf("Pos=%d before binding, %d after binding #%d", pos, p2, round)), true, "", evals
@@ -272,7 +308,7 @@ func c17Judge(c *c17Case) (f *core.Failure, nontrivial bool, status string, eval
 			if pos >= 0 {
 				p = pos - lead
 			}
-			col := caret - c.Padding - prefix
+			col := caret - pad - prefix
 			a := p - col
 			okAlign := p >= 0 && p <= len(tq) && col >= 0 && col <= len(body) && a >= 0 && a+len(body) <= len(tq) && tq[a:a+len(body)] == body
 			if okAlign && col == len(body) && p != len(tq) {
